@@ -171,6 +171,47 @@ def rust_class(t, real, struct_names):
     return 'unknown:' + t
 
 
+def rust_pointee(t, real, struct_names):
+    """class of what a Rust pointer/reference type points to, or None"""
+    t = t.strip()
+    m = re.match(r'(\*const|\*mut|&mut|&)\s*(.+)$', t)
+    if not m:
+        return None
+    return rust_class(m.group(2), real, struct_names)
+
+
+def c_pointee(t, typedefs):
+    """class of what a C pointer (or decayed array parameter) type points to, or None"""
+    t = ' '.join(t.replace('__restrict', '').replace('restrict', '').split())
+    if '(*' in t:
+        return None
+    am = re.match(r'(.+?)\s*\[(\d*)\]$', t)
+    if am:
+        return c_class(am.group(1), typedefs)
+    if t.endswith('*'):
+        return c_class(t[:-1].strip(), typedefs)
+    if t.endswith('* const'):
+        return c_class(t[:-7].strip(), typedefs)
+    return None
+
+
+def pointee_differs(rp, cp):
+    """True if both pointees are known, concrete machine types and differ (void and byte pointers are generic)"""
+    if rp is None or cp is None:
+        return False
+    generic = ('void', 'u8', 'i8', 'ptr', 'fnptr')
+    def norm(x):
+        if x.startswith('array:'):
+            x = x.split(':', 2)[2]
+        if x.startswith('struct:'):
+            x = 'struct:' + re.sub(r'^a_', '', x[7:])
+        return x
+    rp, cp = norm(rp), norm(cp)
+    if rp in generic or cp in generic or rp.startswith('unknown:') or cp.startswith('unknown:'):
+        return False
+    return rp != cp
+
+
 # ----------------------------------------------------------------------------------------------- C side
 def c_class(t, typedefs, depth=0):
     """machine-type class of a C type string"""
@@ -296,6 +337,10 @@ def check(real, cdef, inc, work):
                 f.write('size_t vabi_size_%s_%d(void) { return sizeof(((struct %s *)0)->%s); }\n' % (s['name'], i, cn, fn_))
                 f.write('void vabi_get_%s_%d(const void *s, void *out) { memcpy(out, &((const struct %s *)s)->%s, sizeof(((struct %s *)0)->%s)); }\n' % (s['name'], i, cn, fn_, cn, fn_))
                 f.write('void vabi_set_%s_%d(void *s, const void *in) { memcpy(&((struct %s *)s)->%s, in, sizeof(((struct %s *)0)->%s)); }\n' % (s['name'], i, cn, fn_, cn, fn_))
+    with open(acc, 'a') as f:
+        # the scratch-block size of the fuzzy controller is derived independently on both sides (macro / const fn)
+        f.write('#ifdef A_PID_FUZZY_BFUZZ\nsize_t vabi_bfuzz(size_t n) { return A_PID_FUZZY_BFUZZ(n); }\n#else\nsize_t vabi_bfuzz(size_t n) { (void)n; return (size_t)-1; }\n#endif\n')
+    has_bfuzz = re.search(r'pub\s+const\s+fn\s+BFUZZ\s*\(', open(librs).read()) is not None
     o = os.path.join(work, 'accessors.o')
     r = run(['gcc', '-O1', '-w', '-fPIC', '-I' + inc, '-c', acc, '-o', o] + cdef)
     if r.returncode != 0:
@@ -321,7 +366,10 @@ def check(real, cdef, inc, work):
             f.write('    fn vabi_sizeof_%s() -> usize; fn vabi_alignof_%s() -> usize; fn vabi_nfields_%s() -> usize;\n' % ((s['name'],) * 3))
             for i in range(len(records[mirror[s['name']]])):
                 f.write('    fn vabi_off_%s_%d() -> usize; fn vabi_size_%s_%d() -> usize; fn vabi_get_%s_%d(s: *const u8, out: *mut u8); fn vabi_set_%s_%d(s: *mut u8, inp: *const u8);\n' % ((s['name'], i) * 4))
+        f.write('    fn vabi_bfuzz(n: usize) -> usize;\n')
         f.write('  }\n  pub fn run() {\n')
+        if has_bfuzz:
+            f.write('    for n in 0..17usize { println!("BFUZZ {} {} {}", n, pid_fuzzy::BFUZZ(n), unsafe { vabi_bfuzz(n) }); }\n')
         for s in structs:
             sn = s['name']
             f.write('    println!("STRUCT %s {} {}", size_of::<%s>(), align_of::<%s>());\n' % (sn, sn, sn))
@@ -366,6 +414,7 @@ def check(real, cdef, inc, work):
     if r.returncode != 0:
         broken('probe crashed: ' + r.stderr[-300:])
     rs, rf, cs, cfld, xf = {}, {}, {}, {}, {}
+    bfz = []
     for line in r.stdout.splitlines():
         p = line.split()
         if p[0] == 'STRUCT':
@@ -376,6 +425,8 @@ def check(real, cdef, inc, work):
             cs[p[1]] = (int(p[2]), int(p[3]), int(p[4]))
         elif p[0] == 'CFIELD':
             cfld[(p[1], int(p[2]))] = (int(p[3]), int(p[4]))
+        elif p[0] == 'BFUZZ':
+            bfz.append((int(p[1]), int(p[2]), int(p[3])))
         elif p[0] == 'XFIELD':
             xf[(p[1], int(p[2]))] = (p[4] == 'true', p[5] == 'true')
 
@@ -417,6 +468,9 @@ def check(real, cdef, inc, work):
             elif rc != cc:
                 viol('abi|field|%s.%s|type' % (sn, fname), 'field %d of %s: Rust %s is %s (%s), C %s is %s (%s)' % (i, sn, fname, ftype, rc, cname, ctype, cc), fitem)
                 disagreements += 1
+            elif pointee_differs(rust_pointee(ftype, real, snames), c_pointee(ctype, typedefs)):
+                viol('abi|field|%s.%s|pointee' % (sn, fname), 'field %d of %s: Rust %s points to %s (%s), C %s points to %s (%s): what is stored through one side is read with another element type through the other' % (i, sn, fname, rust_pointee(ftype, real, snames), ftype, cname, c_pointee(ctype, typedefs), ctype), fitem)
+                disagreements += 1
             ok1, ok2 = xf.get((sn, i), (False, False))
             if not (ok1 and ok2):
                 viol('abi|field|%s.%s|cross-boundary' % (sn, fname), 'field %s.%s: a value written on the %s side is not read identically through the other side\'s definition (C field %s)' % (sn, fname, 'Rust' if not ok1 else 'C', cname), fitem)
@@ -428,6 +482,12 @@ def check(real, cdef, inc, work):
                 disagreements += 1
             if fname.rstrip('_') != cname.rstrip('_') and len(samples) < 3:
                 samples.append({'note': 'name differs, layout identical', 'struct': sn, 'rust_field': fname, 'c_field': cname})
+    for n_, rv, cv in bfz:
+        programs += 1
+        if rv != cv and cv != (1 << 64) - 1:
+            viol('abi|const|pid_fuzzy::BFUZZ', 'the scratch-block size for %d fuzzy sets is %d bytes in the binding (pid_fuzzy::BFUZZ) and %d bytes in the header (A_PID_FUZZY_BFUZZ): a block sized by one side is too small or laid out differently for the other' % (n_, rv, cv), {'const': 'BFUZZ', 'n': n_, 'width': real})
+            disagreements += 1
+            break
     # ---- foreign functions and statics
     for fn in fns:
         programs += 1
@@ -453,6 +513,9 @@ def check(real, cdef, inc, work):
             if rc != cc:
                 viol('abi|fn|%s|param%d' % (name, i), 'parameter %d of %s: binding %s (%s), header %s (%s)' % (i, name, rp, rc, cp, cc), item)
                 disagreements += 1
+            elif pointee_differs(rust_pointee(rp, real, snames), c_pointee(cp, typedefs)):
+                viol('abi|fn|%s|param%d|pointee' % (name, i), 'parameter %d of %s points to %s in the binding (%s) and to %s in the header (%s)' % (i, name, rust_pointee(rp, real, snames), rp, c_pointee(cp, typedefs), cp), item)
+                disagreements += 1
         # parameter ORDER by name: machine types cannot tell two reals apart. Where the binding and the header use the same set of
         # parameter names (trailing underscores ignored), the names must come in the same order
         rn = [x.rstrip('_') for x in fn.get('pnames', []) if x != '...']
@@ -462,6 +525,9 @@ def check(real, cdef, inc, work):
             disagreements += 1
         rr = rust_class(fn['ret'], real, snames)
         cr = 'fnptr' if c['ret'] == '__fnptr__' else c_class(c['ret'], typedefs)
+        if rr == cr and c['ret'] != '__fnptr__' and pointee_differs(rust_pointee(fn['ret'], real, snames), c_pointee(c['ret'], typedefs)):
+            viol('abi|fn|%s|return|pointee' % name, 'the pointer %s returns points to %s in the binding and to %s in the header' % (name, rust_pointee(fn['ret'], real, snames), c_pointee(c['ret'], typedefs)), item)
+            disagreements += 1
         if rr != cr:
             viol('abi|fn|%s|return' % name, 'return type of %s: binding %r (%s), header %r (%s)' % (name, fn['ret'] or '()', rr, c['ret'], cr), item)
             disagreements += 1
